@@ -10,6 +10,7 @@ import DTML.VarPipe
 import DTML.ExtImpl
 import DTML.Sort
 import DTML.Stats
+import DTML.TreeCodec
 open Lean DTML
 
 namespace Driver
@@ -179,6 +180,16 @@ def opStats (j : Json) : Except String Json := do
     ("var", if xs.length ≤ 1 then Json.null else jRat (Stats.variance xs)),
     ("min", jRatO p.min), ("max", jRatO p.max), ("median", jRatO (Stats.median isInt xs))]
 
+/-- op "b64": encode_str of a byte list, and decode of the result / of a given text -/
+def opB64 (j : Json) : Except String Json := do
+  let bs ← j.getObjValAs? (Array Nat) "bytes"
+  let enc := TreeCodec.encodeStr bs.toList
+  let dec := TreeCodec.decodeStr enc
+  return Json.mkObj [("enc", Json.str (String.ofList enc)),
+    ("dec", match dec with
+      | some l => Json.arr (l.map (fun (n : Nat) => Json.num n)).toArray
+      | none => Json.null)]
+
 def handle (j : Json) : Except String Json := do
   let op ← getStr j "op"
   match op with
@@ -190,6 +201,7 @@ def handle (j : Json) : Except String Json := do
   | "var" => opVar j
   | "sort" => opSort j
   | "stats" => opStats j
+  | "b64" => opB64 j
   | "ping" => return Json.str "pong"
   | _ => throw s!"unknown op {op}"
 
